@@ -6,7 +6,7 @@
    gqlparser; oracle c02_holds in Gw/FedCheck.v). *)
 From Coq Require Import String List Bool.
 From GW Require Import Base.Res Base.GoStr Base.Json Gql.Syntax Gql.Schema Gw.Merge Gw.MergeCheck Gw.Locate Gw.Vars
-     Gw.Plan Proofs.LocateProofs Proofs.RouteProofs Proofs.UrlProofs Proofs.VarsProofs Proofs.PlanProofs Gw.Plan2 Proofs.Plan2Sim.
+     Gw.Plan Proofs.LocateProofs Proofs.RouteProofs Proofs.UrlProofs Proofs.VarsProofs Proofs.PlanProofs Gw.Plan2 Proofs.Plan2Sim Proofs.Plan2Confined.
 Import ListNotations.
 Open Scope string_scope.
 Open Scope list_scope.
@@ -39,6 +39,20 @@ Theorem C02_full_model_reduces_to_the_simple_one : forall prios urls ft fuel roo
   plan_operation prios urls ft fuel root sels = Ok (erase s).
 Proof. exact plan2_is_plan. Qed.
 Print Assumptions C02_full_model_reduces_to_the_simple_one.
+
+(* ... and on documents WITH named fragment spreads the full model is confined too.  A step sends its
+   selection together with its own fragment definitions: for every step of every plan the full
+   model returns there is a set G of fragment names such that every spread in the step's selection
+   and in the bodies of the fragments of G names a fragment of G, every fragment of G is defined
+   among the step's definitions, and every field of the selection and of those bodies -- read on
+   the definition's own type condition -- is the join id or a field the chooser places at the
+   step's location, all the way down.  No assumption on the document (Proofs/Plan2Confined.v: the
+   definitions of a step evolve while it is built -- appended, their bodies replaced by what stays
+   -- and a name keeps its type condition throughout). *)
+Theorem C02_every_step_is_confined_with_named_fragments : forall prios urls ft planfrags fuel root sels s,
+  plan_operation2 prios urls ft planfrags fuel root sels = Ok s -> step_confined2 prios urls ft s.
+Proof. exact plan2_confined. Qed.
+Print Assumptions C02_every_step_is_confined_with_named_fragments.
 
 (* ... the table gateway.New builds has no empty entry ... *)
 Theorem C02_routing_table_has_no_empty_entry : forall iloc sources internal qft key locs,
@@ -86,4 +100,26 @@ Example C02_nonvacuous :
 Proof.
   eexists. split; [vm_compute; reflexivity|]. split; [reflexivity|].
   repeat constructor; eexists; (split; [vm_compute; reflexivity|cbn; auto]).
+Qed.
+
+(* non-vacuity for the full model: a fragment whose fields live at two services is planned (two
+   steps, each with its own definition of F), and the theorem applies to that plan *)
+Definition C02_example_plan : res fstep :=
+  plan_operation2 [] [("Query.user", ["A"]); ("User.name", ["A"]); ("User.photo", ["B"]); ("User.id", ["A"; "B"])]
+    [("Query.user", "User")]
+    [{| f_name := "F"; f_tcond := "User"; f_dirs := []; f_sel := [Field "name" "name" [] [] []; Field "photo" "photo" [] [] []] |}]
+    4 "Query" [Field "user" "user" [] [] [Spread "F" []]].
+
+Example C02_fragments_nonvacuous :
+  exists s, C02_example_plan = Ok s /\
+    (match s with
+     | FStep _ _ _ _ _ [FStep _ _ _ _ _ [FStep l _ _ sels fr _]] => l = "B" /\ sels = [Spread "F" []] /\ List.length fr = 1
+     | _ => False
+     end) /\
+    step_confined2 [] [("Query.user", ["A"]); ("User.name", ["A"]); ("User.photo", ["B"]); ("User.id", ["A"; "B"])] [("Query.user", "User")] s.
+Proof.
+  destruct C02_example_plan as [s| |] eqn:E; try (vm_compute in E; discriminate).
+  exists s. split; [reflexivity|]. split.
+  - vm_compute in E. injection E as <-. repeat split; reflexivity.
+  - eapply C02_every_step_is_confined_with_named_fragments. exact E.
 Qed.
